@@ -50,6 +50,24 @@ def run_index(check, seed, idx):
     """generate-and-execute run `idx` of `check` (called inside a forked child)"""
     spec = CHECKS[check]
     eng = spec["engine"]
+    if eng in ("c09", "c12") and idx % 2 == 1:
+        # history part: the relation inside seeded histories that write to the operands
+        import hashlib, json
+        s = engine.seed_for(check, seed, idx)
+        rng = random.Random(s)
+        w, knobs, steps, vid = swarm(rng, "relhist")
+        if eng == "c09":
+            from oracles.c09 import C09H as H
+            w["agg"] = 0
+        else:
+            from oracles.c12 import C12H as H
+            w["join"] = 0
+            knobs["p_fault"] = rng.choice([0.0, 0.3])
+        res = engine.run([H()], gen=Gen(rng, w, knobs), rng=rng, max_steps=steps, vid_knobs=vid)
+        res["profile"] = "relhist"
+        res["prng"] = s
+        res["digest"] = hashlib.sha256(json.dumps(res["trace"], sort_keys=True).encode()).hexdigest()[:16] + ":" + res["digest"][:32]
+        return res
     if eng == "history":
         s = engine.seed_for(check, seed, idx)
         rng = random.Random(s)
@@ -87,6 +105,12 @@ def replay_trace(check, trace):
     if eng == "c08":
         from oracles import c08
         return c08.replay(check, trace)
+    if eng in ("c09", "c12") and trace and trace[0].get("op") != "case":
+        if eng == "c09":
+            from oracles.c09 import C09H as H
+        else:
+            from oracles.c12 import C12H as H
+        return engine.run([H()], trace=trace, keep_log=True)
     if eng == "c09":
         from oracles import c09
         return c09.replay(check, trace)
